@@ -27,7 +27,11 @@ var (
 		"append", "cap", "clear", "close", "complex", "copy", "delete", "imag", "len",
 		"make", "max", "min", "new", "panic", "print", "println", "real", "recover",
 	}
-	goReservedKeywords = [25]string{
+	// generatorLocalIdentifiers are the local names the generator emits
+	// verbatim (errgroup variable, range variable over channels, zero value);
+	// allocated names must never collide with them.
+	generatorLocalIdentifiers = [3]string{"eg", "ch", "zero"}
+	goReservedKeywords        = [25]string{
 		"break", "default", "func", "interface", "select",
 		"case", "defer", "go", "map", "struct",
 		"chan", "else", "goto", "package", "switch",
